@@ -8,7 +8,7 @@ from .. import obs, env
 LEVEL = "exploration"
 RULE = ("fmtstr(s) and FmtStr.from_str(s) are executed on (a) every string of up to N tokens over "
         "a 14-token alphabet (ordinary characters, newline, ESC, 0x9B, '[', digits, ';', '?', "
-        "intermediate, finals, complete SGR) - N=3 quick, 5 thorough - plus random longer ones: "
+        "intermediate, finals, complete SGR) - N=4 quick, 5 thorough - plus random longer ones: "
         "must not raise, result text must be a subsequence of s, and a string without ESC/0x9B "
         "must come back verbatim and unformatted; (b) strings generated from TAGGED pieces (the "
         "generator knows which pieces are text): text pieces must survive in order; when all "
@@ -20,7 +20,7 @@ SHARDS = {"thorough": 16}
 ASSUMPTIONS = ["'part of an escape sequence' is decided by construction (tagged generator), not by a second parser",
                "ordinary numeric CSI = ESC [ digits(;digits)* final-letter (7-bit introducer)"]
 
-TOKENS = ["a", " ", "\n", "\x1b", "\x9b", "[", "1", "38", ";", "?", "!", "m", "H", "\x1b[31m"]
+TOKENS = ["a", " ", "\n", "\x1b", "\x9b", "[", "1", "38", ";", "?", "!", "m", "H", "\x1b[31m", "\x1b["]
 TEXT_ALPHA = ["a", "b", " ", "\n", "[", "m", "1", ";", "?", "~", "一", "\t", "H"]
 SUPPORTED = [0, 1, 2, 3, 4, 5, 7, 31, 32, 39, 44, 49]
 UNSUPPORTED = [6, 8, 9, 21, 22, 38, 5, 196, 48, 90, 97, 100, 107, 200, 10]
@@ -48,7 +48,8 @@ def numeric_csi(rng):
 def other_escape(rng):
     return rng.choice(["\x1b[?25l", "\x1b[?1049h", "\x1b[?12l\x1b[?25h", "\x1b[>c", "\x1b[1 q",
                        "\x9b31m", "\x9b2J", "\x1bM", "\x1b7", "\x1b8", "\x1bc", "\x1b(B",
-                       "\x1b[!p", "\x1b[1;2;3;4;5;6;7;8;9;10m", "\x1b[;m", "\x1b[1;;2m"])
+                       "\x1b[!p", "\x1b[1;2;3;4;5;6;7;8;9;10m", "\x1b[;m", "\x1b[1;;2m", "\x1b[1;m",
+                       "\x1b[;1m", "\x1b[31;m", "\x1b[;;m", "\x1b[38m", "\x1b[48;5m", "\x1b[1;38m"])
 
 
 def classify(s, exc=None):
@@ -118,7 +119,7 @@ def pygments_samples():
 
 
 def run(ctx):
-    N = 3 if ctx.quick else 5
+    N = 4 if ctx.quick else 5
     n = 0
     for k in range(0, N + 1):
         for toks in itertools.product(TOKENS, repeat=k):
